@@ -18,6 +18,9 @@
       the code store (`db.ContractCode`) is folded into the account content;
     * read caches (stateObjects filled by getStateObject on a read, cachedStorage, the lazily loaded code) are not
       modelled: getters are pure.  A write materialises the object exactly as Go's load-then-mutate does;
+    * whether the nodes of a storage trie are in the node database is not modelled: Finalise only hashes a storage trie,
+      Commit writes it. A leaf written by Finalise is never re-read in a state satisfying the cache invariant (the cached
+      object shadows it); it is in the defect states F2/F3 (see Props.C09), where Go then sees an empty storage;
     * Go panics are explicit: `revertTo` returns `none` for an id that is not live; nil dereferences and the RLP encoder's
       panic on a negative balance set the sticky `fault` flag.
   The journal and the revision stack are kept newest-first (Go appends; `journal[:n]` = drop from the front here).
